@@ -32,6 +32,9 @@ type CallAssert struct {
 	Ordinal int    // 0 = every call
 	Clause  *Clause
 	Assume  bool // assumption instead of obligation
+	// Capture: not an assertion - the value of the expression at the call is remembered under the label and can be
+	// read later with __cap[T]("label") (ghost variable assigned at the call)
+	Capture bool
 }
 
 // Contract is the parsed `//@ func` block of one function.
@@ -429,6 +432,11 @@ func parseClause(c *Contract, text, loc string) error {
 			isAfter = true
 			rest = strings.TrimSpace(strings.TrimPrefix(rest, "after "))
 		}
+		isCapture := false
+		if strings.HasPrefix(rest, "capture") {
+			isCapture = true
+			rest = "assert" + strings.TrimPrefix(rest, "capture")
+		}
 		isAssume := false
 		if strings.HasPrefix(rest, "assume") {
 			// an explicit environment assumption at a call (reported in the evidence, never silently)
@@ -443,7 +451,7 @@ func parseClause(c *Contract, text, loc string) error {
 		if err != nil {
 			return err
 		}
-		c.Calls = append(c.Calls, &CallAssert{Callee: callee, Ordinal: ord, Clause: cl, Assume: isAssume, After: isAfter})
+		c.Calls = append(c.Calls, &CallAssert{Callee: callee, Ordinal: ord, Clause: cl, Assume: isAssume, After: isAfter, Capture: isCapture})
 	default:
 		m := reHead.FindStringSubmatch(text)
 		if m == nil {
